@@ -14,7 +14,7 @@ import os
 import re
 import vlib
 
-PROOFS = ["MgProof.C14.Lemmas", "MgProof.C14.TypStep", "MgProof.C14.LoopInv", "MgProof.C14.CtxInv", "MgProof.C14.Props"]
+PROOFS = ["MgProof.C14.Lemmas", "MgProof.C14.TypStep", "MgProof.C14.LoopInv", "MgProof.C14.CtxInv", "MgProof.C14.Progress", "MgProof.C14.Props"]
 GREP = ["MgModel/C14", "MgProof/C14", "MgModel/Common", "Drv/C14.lean"]
 WRAP = ["poll", "epoll_wait", "select", "read", "write"]
 
